@@ -23,6 +23,16 @@ import (
 // the closure "a acknowledges everything outstanding and completes its own exchanges,
 // until nothing is outstanding" is run on the replayed instance; afterwards no message
 // may remain untransmitted (unless a drop was reported through a hook).
+//
+// Quota leaks on the refusal paths (ii): with refuse=<kinds> a also publishes at QoS 0/1/2
+// to topics on which the broker refuses publishes (x: write denied by an ACL hook, y:
+// rejected by the publish hook with reason 0x97, z: a $SYS topic name). Reference model: a
+// publish answered with a PUBACK/PUBREC whose reason code is >= 0x80 is complete
+// (MQTT-3.3.4-7, §4.9) and no longer counts. With adup=2 a retransmits an open QoS 2
+// PUBLISH with DUP=1 (on the same connection and after a reconnect); ops are only enabled
+// while a stays within the server's Receive Maximum under BOTH readings (publishes, and
+// PUBLISH packets sent on the connection), so every 0x93 is a violation; keys
+// ...within-limit:after-refused-publish / :after-dup-retransmission.
 
 func init() {
 	explore.RegisterBFS("c11", qosRun("c11"))
@@ -30,18 +40,24 @@ func init() {
 		c.Rep.Level = "model_checking"
 		c.Rep.Assumption("one client action at a time, broker run to quiescence under the deterministic default schedule (sequential histories)")
 		c.Rep.Assumption("state = reflective dump of *Server plus reference-model state and pool counters; histories merged only if byte-identical")
+		c.Rep.Assumption("a publish of the client answered with PUBACK/PUBREC >= 0x80 is complete; DUP retransmissions are only issued while the number of PUBLISH packets sent on the connection for incomplete exchanges stays within the server's Receive Maximum (a 0x93 on a same-connection retransmission beyond that count is not judged)")
 		c.Rep.Assumption("an inbound QoS 2 publish counts against the server's Receive Maximum until PUBCOMP was sent; outbound counts until PUBACK/PUBCOMP was received (violations that only exist under this reading have their own key family)")
 		var sts []*explore.BFSStats
 		if c.Quick() {
 			sts = append(sts, explore.RunBFS(c, "c11", "v=5,rm=1,srm=1,pubs=3,qos=12,conns=0,apubs=2,aids=1,abase=10,aqos=012,closure=ackall", 0, 25*time.Second))
 			sts = append(sts, explore.RunBFS(c, "c11", "v=5,rm=2,srm=2,pubs=4,qos=12,conns=0,apubs=1,aids=1,abase=10,aqos=2,closure=ackall", 0, 25*time.Second))
 			sts = append(sts, explore.RunBFS(c, "c11", "v=5,rm=1,srm=2,pubs=3,qos=1,conns=2,take=1,apubs=0,closure=ackall", 0, 20*time.Second))
+			sts = append(sts, explore.RunBFS(c, "c11", "v=5,rm=0,srm=2,pubs=0,conns=1,apubs=2,aids=1,abase=10,aqos=12,refuse=xy,rpubs=2,closure=ackall", 0, 20*time.Second))
+			sts = append(sts, explore.RunBFS(c, "c11", "v=5,rm=0,srm=2,pubs=0,conns=0,apubs=3,aids=2,abase=10,aqos=12,adup=2,closure=ackall", 0, 20*time.Second))
 		} else {
 			sts = append(sts, explore.RunBFS(c, "c11", "v=5,rm=1,srm=1,pubs=4,qos=12,conns=1,apubs=3,aids=2,abase=10,aqos=012,closure=ackall", 0, 4*time.Minute))
 			sts = append(sts, explore.RunBFS(c, "c11", "v=5,rm=2,srm=2,pubs=4,qos=12,conns=1,apubs=3,aids=2,abase=10,aqos=12,closure=ackall", 0, 4*time.Minute))
 			sts = append(sts, explore.RunBFS(c, "c11", "v=5,rm=1,srm=2,pubs=3,qos=12,conns=2,take=1,clean=1,apubs=0,closure=ackall", 0, 2*time.Minute))
 			sts = append(sts, explore.RunBFS(c, "c11", "v=5,rm=0,srm=2,pubs=2,qos=2,conns=0,apubs=4,aids=3,abase=10,aqos=012,closure=ackall", 0, 90*time.Second))
+			sts = append(sts, explore.RunBFS(c, "c11", "v=5,rm=0,srm=2,pubs=0,conns=1,take=1,apubs=4,aids=2,abase=10,aqos=012,adup=2,refuse=xyz,rpubs=3,closure=ackall", 0, 90*time.Second))
+			sts = append(sts, explore.RunBFS(c, "c11", "v=5,rm=0,srm=1,pubs=1,qos=1,conns=1,apubs=3,aids=2,abase=10,aqos=12,adup=2,refuse=xyz,rpubs=2,closure=ackall", 0, 60*time.Second))
+			sts = append(sts, explore.RunBFS(c, "c11", "v=5,rm=0,srm=3,pubs=0,conns=1,apubs=4,aids=3,abase=10,aqos=12,adup=2,refuse=xy,rpubs=3,closure=ackall", 0, 60*time.Second))
 		}
-		qosFold(c, sts, "messages_held_back_while_connected", "ackall_closures", "deferred_releases")
+		qosFold(c, sts, "messages_held_back_while_connected", "ackall_closures", "deferred_releases", "own_publish_sensitive_to_slot_kept_by_refused_publish", "own_publish_sensitive_to_slot_kept_by_dup_retransmission")
 	})
 }
